@@ -4,7 +4,7 @@
 cd "$(dirname "$0")/.." || exit 1
 test -x bin/flytsym || exit 1
 echo '(check-sat)' | z3 -in >/dev/null || exit 1
-echo '(check-sat)' | cvc5 --incremental --lang=smt2 >/dev/null || exit 1
+echo '(set-logic ALL)(check-sat)' | cvc5 --incremental --lang=smt2 >/dev/null 2>&1 || exit 1
 ./check _conformance quick >/dev/null 2>&1 || { echo "conformance self-check failed"; ./check _conformance quick | tail -5; exit 1; }
 rm -f evidence/_conformance.json
 exit 0
